@@ -310,4 +310,13 @@ def callInputs {α : Type} (c : Ctor) (args : String → Emit.Arg α) : List (Em
     | some w => args w.2
     | Option.none => Emit.Arg.opt Option.none
 
+/-- `Node._init_output_vars`: a fresh Var for *every* declared output — optional ones included —
+    and `out_variadic` fresh Vars for the variadic field. The constructors give the caller no way
+    to leave an optional output out. -/
+def initOutputs (outs : List (String × FieldKind)) (nvar : Nat) : List (Emit.Arg String) :=
+  outs.map fun f => match f.2 with
+    | .single => Emit.Arg.single f.1
+    | .optional => Emit.Arg.opt (some f.1)
+    | .variadic => Emit.Arg.variadic ((List.range nvar).map fun i => f.1 ++ "_" ++ toString i)
+
 end Conform
